@@ -396,10 +396,10 @@ func TestEnumBoundary(t *testing.T) {
 	// exactly four points (the corner cases of Ring.Closed), near the origin and far from it
 	for _, o := range []float64{0, 1 << 27, -maxCoord} {
 		a := orb.Point{o, o}
-		cases = append(cases, oneFeature(Feat{Geom: gen.G{V: orb.Ring{a, {o + 4, o}, {o + 4, o + 4}, {o, o + 4}}}}))         // last.x == first.x
-		cases = append(cases, oneFeature(Feat{Geom: gen.G{V: orb.Ring{a, {o + 4, o + 1}, {o + 4, o + 4}, {o + 2, o}}}}))     // last.y == first.y
-		cases = append(cases, oneFeature(Feat{Geom: gen.G{V: orb.Polygon{{a, {o + 4, o}, {o, o + 4}, a}}}}))                 // closed, 4 points
-		cases = append(cases, oneFeature(Feat{Geom: gen.G{V: orb.Polygon{{a, {o + 4, o}, {o, o + 4}}}}}))                    // 3 points, unclosed
+		cases = append(cases, oneFeature(Feat{Geom: gen.G{V: orb.Ring{a, {o + 4, o}, {o + 4, o + 4}, {o, o + 4}}}}))          // last.x == first.x
+		cases = append(cases, oneFeature(Feat{Geom: gen.G{V: orb.Ring{a, {o + 4, o + 1}, {o + 4, o + 4}, {o + 2, o}}}}))      // last.y == first.y
+		cases = append(cases, oneFeature(Feat{Geom: gen.G{V: orb.Polygon{{a, {o + 4, o}, {o, o + 4}, a}}}}))                  // closed, 4 points
+		cases = append(cases, oneFeature(Feat{Geom: gen.G{V: orb.Polygon{{a, {o + 4, o}, {o, o + 4}}}}}))                     // 3 points, unclosed
 		cases = append(cases, oneFeature(Feat{Geom: gen.G{V: orb.Polygon{{a, {o + 4, o}, {o + 4, o + 4}, {o + 1, o + 1}}}}})) // 4 points, unclosed, last one unit from first
 		cases = append(cases, oneFeature(Feat{Geom: gen.G{V: orb.MultiPolygon{{{a, {o + 4, o}, {o, o + 4}}}, {{{o + 9, o}, {o + 13, o}, {o + 9, o + 4}, {o + 9, o + 1}}}}}}))
 	}
